@@ -19,6 +19,8 @@ EXTENDS Fnmatch, Json, IOUtils
 
 CONSTANTS SAlpha, SLen, Shards
 
+StrSet       == {"a", "&", "~", "-"}
+StrRegex     == {"a", "+", "(", ")", "|", "$", "{", "}", "\n"}
 StrFull      == {"a", "b", ".", "-", "]", "^"}
 StrSmall     == {"a", ".", "-", "]"}
 StrClass     == {"a", "A", "1", "-", " ", "]"}
